@@ -36,6 +36,7 @@ package main
 import (
 	"errors"
 	"fmt"
+	"math/big"
 	"math/rand"
 	"runtime"
 	"sort"
@@ -1154,6 +1155,22 @@ func judgeLatency(prefix string, k statKey, v int64, ivs []interval, tau, p int6
 	if n == 0 {
 		return &mismatch{prefix + "latency-set-with-empty-window", fmt.Sprintf("refresh at virtual time %d exported %s of window %v = %d although no latency was observed in that window", tau, k.Typ, w, v)}
 	}
+	if (v < lo-p || v > hi+p) && k.Typ == latency.Avg && exactMinMax {
+		// Input class of the known finding D35: the scaled latencies of the window do
+		// not add up in an int64 (the implementation keeps its running totals in one).
+		sum := new(big.Int)
+		for _, iv := range ivs {
+			if iv.End <= tau-k.W {
+				continue
+			}
+			for _, smp := range iv.Samples {
+				sum.Add(sum, big.NewInt(smp/p))
+			}
+		}
+		if !sum.IsInt64() {
+			return &mismatch{prefix + "latency-out-of-bounds:avg:window-sum-exceeds-int64", fmt.Sprintf("refresh at virtual time %d exported avg of window %v = %d, outside [min S - p, max S + p] = [%d - %d, %d + %d]: the %d latencies observed in the window (scaled by the precision) add up to %s, which does not fit an int64", tau, w, v, lo, p, hi, p, n, sum.String())}
+		}
+	}
 	if v < lo-p || v > hi+p {
 		return &mismatch{prefix + "latency-out-of-bounds", fmt.Sprintf("refresh at virtual time %d exported %s of window %v = %d, outside [min S - p, max S + p] = [%d - %d, %d + %d] (%d samples in the window)", tau, k.Typ, w, v, lo, p, hi, p, n)}
 	}
@@ -1212,6 +1229,12 @@ func genLatSchedule(rng *rand.Rand) (latCfg, []lstep) {
 	cfg.P = []int64{0, 0, 1, 7, 50, 1000}[rng.Intn(6)]
 	cfg.NilOpts = cfg.P == 0 && rng.Intn(2) == 0
 	base := []int64{0, 3, 100, 10000, 1000000000}[rng.Intn(5)]
+	if rng.Intn(10) == 0 {
+		// A device whose clock was never set stamps its updates near the epoch: every
+		// latency is about 56 years (1.7e18 ns), and six of them no longer add up in
+		// an int64.
+		base = 1_700_000_000_000_000_000
+	}
 	spread := []int64{1, 10, 1000, 100000}[rng.Intn(4)]
 	nsteps := 20 + rng.Intn(61)
 	steps := make([]lstep, 0, nsteps+1)
